@@ -180,7 +180,10 @@ func (e *Engine) initStubs() {
 		}
 		return tb.Int64(int64(n))
 	})
-	e.stub(V+"Symbolic", func(e *Engine, st *State, th *Thread, c *callCtx) Value { return tb.True })
+	e.stub(V+"Symbolic", func(e *Engine, st *State, th *Thread, c *callCtx) Value {
+		st.EngineOnly = true // the harness branches on running under the executor: its paths cannot be replayed natively
+		return tb.True
+	})
 	e.stub(V+"Cut", func(e *Engine, st *State, th *Thread, c *callCtx) Value {
 		label, _ := c.args[0].(StrV).constString()
 		st.cut(label)
